@@ -1,6 +1,7 @@
 import MJ.Proofs.Bal
 import MJ.Proofs.Nested
 import MJ.Proofs.BalGen
+import MJ.Gen.Tables
 /-!
 # C05 — scoped constructs restore scope, capture and escape state on every path
 
@@ -194,6 +195,48 @@ theorem earlyReturn_is_not_a_restore :
       ¬ MJ.Nested.Same (MJ.Nested.evalMacroEarlyReturn 7 4 500 ⟨100, none⟩ ⟨101, none⟩ body s).2 s :=
   MJ.Nested.earlyReturn_does_not_restore
 
+/-! ## The include statement on every way through it (closure register included) -/
+
+/-- `include_statement_restores`: the whole `perform_include` — candidate loop included — hands back
+frames *with their closure attachment* (`Frame::closure`, the register macros declared in the frame
+are written through), depth, instructions, escape mode, current block, block table and loaded
+templates, whether a template was found and evaluated (successfully or not), a lookup failed, or
+nothing was found and the statement did nothing (`ignore missing`, empty list). -/
+theorem include_statement_restores (cost limit : Nat) (ignoreMissing : Bool)
+    (choices : List MJ.Nested.Choice) (h : ∀ c ∈ choices, MJ.Nested.ChoiceOk c)
+    (tried : Nat) (s : MJ.Nested.St) (o : MJ.Nested.Out) :
+    MJ.Nested.Same (MJ.Nested.includeStmt cost limit ignoreMissing choices tried s o).2.1 s :=
+  MJ.Nested.includeStmt_restores cost limit ignoreMissing choices h tried s o
+
+/-- on the ways through the statement that evaluate no template nothing at all is touched -/
+theorem include_noop_untouched (cost limit : Nat) (ignoreMissing : Bool)
+    (choices : List MJ.Nested.Choice)
+    (h : ∀ c ∈ choices, ∀ i a nb b, c ≠ MJ.Nested.Choice.found i a nb b)
+    (tried : Nat) (s : MJ.Nested.St) (o : MJ.Nested.Out) :
+    (MJ.Nested.includeStmt cost limit ignoreMissing choices tried s o).2.1 = s ∧
+    (MJ.Nested.includeStmt cost limit ignoreMissing choices tried s o).2.2 = o :=
+  MJ.Nested.includeStmt_noop cost limit ignoreMissing choices h tried s o
+
+example : ∀ c ∈ [MJ.Nested.Choice.missing, .found 3 1 (fun _ => none)
+      (fun s o => (.err, { s with frames := ⟨9, none⟩ :: MJ.Nested.setTopClosure (some 4) s.frames,
+                                  autoEscape := 7 }, ⟨o.caps + 2⟩))],
+    MJ.Nested.ChoiceOk c := by
+  intro c hc
+  simp only [List.mem_cons, List.not_mem_nil, or_false] at hc
+  rcases hc with rfl | rfl
+  · trivial
+  · exact ⟨fun s _ => ⟨[⟨9, none⟩], some 4, rfl⟩, fun _ _ => rfl⟩
+
+/-- the model tells the variants apart: with `take_closure()` hoisted in front of the candidate
+loop (and `reset_closure` left behind the evaluation) a forgiven include that finds nothing
+succeeds with the frame's closure detached, while the real statement restores it -/
+theorem hoisted_take_closure_is_not_a_restore :
+    ∃ (s : MJ.Nested.St) (o : MJ.Nested.Out),
+      (MJ.Nested.includeStmtHoisted 10 500 true [.missing] s o).1 = .ok ∧
+      ¬ MJ.Nested.Same (MJ.Nested.includeStmtHoisted 10 500 true [.missing] s o).2.1 s ∧
+      MJ.Nested.Same (MJ.Nested.includeStmt 10 500 true [.missing] 0 s o).2.1 s :=
+  MJ.Nested.hoisted_take_closure_loses_closure
+
 /-! ## The code generator only produces balanced code -/
 
 open MJ.BalGen in
@@ -238,5 +281,110 @@ example : Balanced (MJ.BalGen.codeOf (MJ.BalGen.compileTemplate everything)) :=
 jump to the loop end: `PopAutoEscape, EndCapture, DiscardTop, PopFrame, Jump` -/
 example : (((MJ.BalGen.compileTemplate everything).map (·.1)).drop 17).take 5 =
     [.popAutoEscape, .endCapture, .other, .popFrame, .jump 67] := by decide
+
+/-! ## The model agrees with tables regenerated from the sources on every run
+
+`MJ.Gen.c05*` are rewritten by `lib/tables/c05.py` from `compiler/instructions.rs`, `vm/mod.rs`
+(`eval_impl`), `compiler/codegen.rs` and the harness; a change there re-checks (or breaks) these. -/
+
+open MJ.Gen in
+/-- every instruction of the enum has an arm in `eval_impl` and is either projected to `other` by the
+harness or mapped to a letter of the model's alphabet — never both, nothing else -/
+theorem alphabet_covers_enum :
+    c05Instructions.all (fun n => c05VmArms.any (fun a => a.1 == n)) = true ∧
+    c05VmArms.all (fun a => c05Instructions.contains a.1) = true ∧
+    c05Instructions.all (fun n => (c05HarnessOther.contains n) != (c05HarnessMapped.contains n)) = true ∧
+    (c05HarnessOther ++ c05HarnessMapped).all (fun n => c05Instructions.contains n) = true := by decide
+
+open MJ.Gen in
+/-- the arms of `eval_impl` for the instructions the model treats as `other` mention neither the frame
+stack nor the auto-escape stack nor the program counter; the only one that touches the capture
+stack is `LoadBlocks` (its discard capture is closed by the end-of-stream logic) -/
+theorem other_arms_touch_nothing :
+    c05VmArms.all (fun a =>
+      !(c05HarnessOther.contains a.1) ||
+      (!a.2.1 && !a.2.2.2.1 && !a.2.2.2.2.1 && (!a.2.2.1 || a.1 == "LoadBlocks"))) = true := by decide
+
+/-- what the model says each letter of its alphabet touches: (frames, captures, escape stack, pc) -/
+def modelTouches : List (String × Bool × Bool × Bool × Bool) := [
+  ("PushWith", true, false, false, false), ("PopFrame", true, false, false, false),
+  ("PushLoop", true, false, false, false), ("Iterate", true, false, false, true),
+  ("PushDidNotIterate", true, false, false, false), ("PopLoopFrame", true, true, false, true),
+  ("BeginCapture", false, true, false, false), ("EndCapture", false, true, false, false),
+  ("PushAutoEscape", false, false, true, false), ("PopAutoEscape", false, false, true, false),
+  ("Jump", false, false, false, true), ("JumpIfFalse", false, false, false, true),
+  ("JumpIfFalseOrPop", false, false, false, true), ("JumpIfTrueOrPop", false, false, false, true),
+  ("FastRecurse", true, false, false, true), ("CallFunction", false, false, false, true),
+  ("Return", false, false, false, true), ("BuildMacro", false, false, false, false)]
+
+open MJ.Gen in
+/-- … and the arms of the mapped instructions mention exactly what the abstract machine models -/
+theorem mapped_arms_as_modelled :
+    c05HarnessMapped.all (fun n =>
+      match c05VmArms.find? (fun a => a.1 == n), modelTouches.find? (fun a => a.1 == n) with
+      | some a, some m => a.2.1 == m.2.1 && a.2.2.1 == m.2.2.1 && a.2.2.2.1 == m.2.2.2.1 && a.2.2.2.2.1 == m.2.2.2.2
+      | _, _ => false) = true := by decide
+
+def instrName : Instr → String
+  | .other => "other" | .pushWith => "PushWith" | .popFrame => "PopFrame" | .pushLoop _ _ => "PushLoop"
+  | .iterate _ => "Iterate" | .pushDidNotIterate => "PushDidNotIterate" | .popLoopFrame => "PopLoopFrame"
+  | .beginCapture => "BeginCapture" | .endCapture => "EndCapture" | .pushAutoEscape => "PushAutoEscape"
+  | .popAutoEscape => "PopAutoEscape" | .jump _ => "Jump" | .jumpIfFalse _ => "JumpIfFalse"
+  | .jumpIfFalseOrPop _ => "JumpIfFalseOrPop" | .jumpIfTrueOrPop _ => "JumpIfTrueOrPop"
+  | .fastRecurse => "FastRecurse" | .callFunction => "CallFunction" | .ret => "Return"
+  | .buildMacro _ => "BuildMacro"
+
+/-- names of what the model generator emits for a statement (straight-line instructions as `other`) -/
+def modelNames (s : MJ.BalGen.Stmt) : List String :=
+  (MJ.BalGen.compileTemplate s).map (fun x => instrName x.1)
+
+/-- a row of the extracted table, instructions only, the ones the model calls `other` renamed -/
+def rowNames (row : List String) : List String :=
+  (row.filter (fun s => !(["startscope:With", "startscope:Capture", "startscope:AutoEscape", "endscope",
+      "leavescopesofinnermostloop"].contains s))).map
+    (fun s => if s == "Include" || s == "ExportLocals" || s == "DiscardTop" then "other" else s)
+
+def codegenRow (n : String) : List String :=
+  match MJ.Gen.c05CodegenArms.find? (fun a => a.1 == n) with
+  | some a => a.2
+  | none => ["<missing>"]
+
+open MJ.BalGen in
+/-- the scoped arms of `compile_stmt` add exactly the instructions the model generator emits, in the
+same order, with the scope tracking (`start_scope` right behind the opening instruction,
+`end_scope` right in front of the closing one); `leave_scopes_of_innermost_loop` emits for each
+open scope what `cleanup` emits and stops at the innermost loop; `break` / `continue` call it in
+front of their jump -/
+theorem codegen_arms_as_modelled :
+    codegenRow "WithBlock" = ["PushWith", "startscope:With", "endscope", "PopFrame"] ∧
+    rowNames (codegenRow "WithBlock") = modelNames (.withS 0 .skip) ∧
+    codegenRow "SetBlock" = ["BeginCapture", "startscope:Capture", "endscope", "EndCapture"] ∧
+    codegenRow "FilterBlock" = ["BeginCapture", "startscope:Capture", "endscope", "EndCapture"] ∧
+    rowNames (codegenRow "SetBlock") = modelNames (.capture .skip 0) ∧
+    codegenRow "AutoEscape" = ["PushAutoEscape", "startscope:AutoEscape", "endscope", "PopAutoEscape"] ∧
+    rowNames (codegenRow "AutoEscape") = modelNames (.autoEscape 0 .skip) ∧
+    rowNames (codegenRow "Import") = modelNames (.importS 0 0) ∧
+    (rowNames (codegenRow "FromImport")).take 6 = modelNames (.importS 0 0) ∧
+    codegenRow "Break" = ["leavescopesofinnermostloop", "Jump"] ∧
+    codegenRow "Continue" = ["leavescopesofinnermostloop", "Jump"] ∧
+    codegenRow "start_for_loop" = ["PushLoop", "Iterate"] ∧
+    (codegenRow "end_for_loop").take 3 = ["Jump", "PushDidNotIterate", "PopLoopFrame"] ∧
+    modelNames (.forElse true false 0 0 .skip .skip)
+      = codegenRow "start_for_loop" ++ (codegenRow "end_for_loop").take 3 ++ ["JumpIfFalse"] ∧
+    rowNames (codegenRow "leave:With") = (cleanup [.withS] AbsState.init).1.map (fun x => instrName x.1) ∧
+    rowNames (codegenRow "leave:Capture") = (cleanup [.capture] AbsState.init).1.map (fun x => instrName x.1) ∧
+    rowNames (codegenRow "leave:AutoEscape") = (cleanup [.autoEscape] AbsState.init).1.map (fun x => instrName x.1) ∧
+    (codegenRow "compile_macro_expression").filter (· != "DiscardTop") = ["Jump", "Return", "BuildMacro", "Jump"] ∧
+    modelNames (.macroS 0 .skip 0 0) = ["Jump", "Return", "BuildMacro"] := by decide
+
+open MJ.Gen in
+/-- in `eval_macro`, `perform_super` and `perform_include` the state is given back between the nested
+run and the first look at its result (what `nested_restores` models), and `perform_include` detaches
+the closure of the including frame inside the loop over the candidates (what `includeStmt` models) -/
+theorem restore_order_as_modelled :
+    c05RestoreOrder = [
+      ("eval_macro", ["run", "restore", "result"]),
+      ("perform_super", ["run", "restore", "restore2", "result"]),
+      ("perform_include", ["loop", "take", "run", "restore", "restore2", "result"])] := by decide
 
 end MJ.C05
